@@ -16,12 +16,12 @@ import (
 // numbers and file handles only; never compared).
 type rng struct{ r *hx.Rand }
 
-func (g rng) Float64() float64        { return float64(g.r.Uint64()>>11) / (1 << 53) }
-func (g rng) Int64N(n int64) int64    { return int64(g.r.Uint64() % uint64(n)) }
-func (g rng) IntN(n int) int          { return g.r.Intn(n) }
-func (g rng) Uint32() uint32          { return uint32(g.r.Uint64()) }
-func (g rng) Uint64() uint64          { return g.r.Uint64() }
-func (g rng) IsThreadSafe()           {}
+func (g rng) Float64() float64     { return float64(g.r.Uint64()>>11) / (1 << 53) }
+func (g rng) Int64N(n int64) int64 { return int64(g.r.Uint64() % uint64(n)) }
+func (g rng) IntN(n int) int       { return g.r.Intn(n) }
+func (g rng) Uint32() uint32       { return uint32(g.r.Uint64()) }
+func (g rng) Uint64() uint64       { return g.r.Uint64() }
+func (g rng) IsThreadSafe()        {}
 func (g rng) Read(p []byte) (int, error) {
 	for i := range p {
 		p[i] = byte(g.r.Uint64())
